@@ -2083,8 +2083,10 @@ func (f *File) ReadFrom(r io.Reader) (int64, error) {
 			m, err2 := f.writeChunkAt(ch, b[:n], f.offset)
 			f.offset += int64(m)
 
-			if err == nil {
-				err = err2
+			if err2 != nil {
+				// A failed write must be reported, even if the reader has
+				// hit (unexpected) EOF while filling this last, short chunk.
+				return read, err2
 			}
 		}
 
